@@ -40,6 +40,8 @@ struct Msg {
     fields: Vec<Field>,
     #[allow(dead_code)]
     type_url: String,
+    #[serde(default)]
+    doc_name: String,
 }
 
 #[derive(Deserialize, Clone, Debug)]
@@ -62,6 +64,8 @@ struct Schema {
     includes: Vec<(String, String)>,
     dead_files: Vec<String>,
     type_urls: Vec<(String, String)>,
+    #[serde(default)]
+    rpc_methods: Vec<(String, String, String)>,
 }
 
 /// result of decode -> encode -> decode through a generated type
@@ -594,7 +598,27 @@ fn main() {
                 pkg = p.to_string();
             }
         }
-        let want = format!("/{pkg}.{name}");
+        // prost re-cases identifiers (MsgExecuteJSON becomes MsgExecuteJson): the protobuf spelling of the name
+        // survives in the doc comment copied from the .proto file and in the gRPC path of the Msg service
+        let mut proto_name = name.clone();
+        if let Some(j) = db.by_path.get(*path) {
+            let d = &schema.messages[*j].doc_name;
+            if d.eq_ignore_ascii_case(&name) && *d != name {
+                proto_name = d.clone();
+            }
+        }
+        for (p2, svc, method) in &schema.rpc_methods {
+            if *p2 == pkg && svc == "Msg" {
+                let cand = format!("Msg{method}");
+                if cand.eq_ignore_ascii_case(&name) && cand != name {
+                    proto_name = cand;
+                }
+            }
+        }
+        let want = format!("/{pkg}.{proto_name}");
+        if proto_name != name {
+            o.notes.push(format!("{path}: protobuf name {proto_name} (doc comment / gRPC path) differs in case from the Rust identifier"));
+        }
         if *url != want {
             viol(&mut o, "type_url.not_canonical", format!("TYPE_URL of {path} is {url:?}, fully-qualified protobuf name gives {want:?}"), json!({"type": path, "declared": url, "expected": want}));
         }
